@@ -238,7 +238,7 @@ Section World.
   Record cstate : Type := mkC { c_db : db; c_batch : list N; c_bsize : Z }.
 
   (* batch.Write(); batch.Replay(uncacher); batch.Reset() *)
-  Definition flush (cs : cstate) : res cstate :=
+  Definition flush_batch (cs : cstate) : res cstate :=
     let st1 := with_disk (c_db cs) (disk_add (disk (c_db cs)) (c_batch cs)) in
     bind (fold_res uncache (rev (c_batch cs)) st1) (fun st2 => Ok (mkC st2 [] 0%Z)).
 
@@ -252,14 +252,14 @@ Section World.
         | Some node =>
             bind (fold_res (commit f) (e_ext node ++ kids h) cs) (fun cs1 =>
             let cs2 := mkC (c_db cs1) (h :: c_batch cs1) (c_bsize cs1 + node_cost h)%Z in
-            if (ideal <=? c_bsize cs2)%Z then flush cs2 else Ok cs2)
+            if (ideal <=? c_bsize cs2)%Z then flush_batch cs2 else Ok cs2)
         end
     end.
 
   (* Commit (database.go:400) *)
   Definition Commit (st : db) (root : N) : res db :=
     bind (commit (fuel_of st) (mkC st [] 0%Z) root) (fun cs =>
-    bind (flush cs) (fun cs' => Ok (c_db cs'))).
+    bind (flush_batch cs) (fun cs' => Ok (c_db cs'))).
 
   (* Update (database.go:537): [nodes] is the insertion order produced by the owner loop
      and ForEachWithOrder; [refs] the (account.Root, leaf.Parent) pairs with a non-empty root *)
